@@ -448,7 +448,22 @@ func tokenizeSexp(s string) []string {
 // Portfolio runs all solvers in parallel on a query and returns the first definitive answer.
 // If both is set, it waits for two agreeing definitive answers (thorough tier).
 func Portfolio(query string, dir string, name string, timeout time.Duration, both bool) (SolveResult, []SolveResult) {
-	return portfolioWith(solvers, query, dir, name, timeout, both, true)
+	// the default configurations and the alternative quantifier-instantiation strategies run side by side: an
+	// obligation that only an alternative strategy decides is then decided in that strategy's own time, not after
+	// the default configurations have used up their timeout (which made such obligations fragile under load)
+	return portfolioWith(append(append([]solverSpec{}, solvers...), altSolvers...), query, dir, name, timeout, both, false)
+}
+
+var altSolvers = []solverSpec{
+	{"z3-5.1.0/nombqi", func(f string, to time.Duration) []string {
+		return []string{"z3-new", fmt.Sprintf("-T:%d", int(to.Seconds())+1), "smt.mbqi=false", "smt.random_seed=7", f}
+	}},
+	{"z3-4.8.12/seed", func(f string, to time.Duration) []string {
+		return []string{"/usr/bin/z3", fmt.Sprintf("-T:%d", int(to.Seconds())+1), "smt.random_seed=13", "smt.qi.eager_threshold=50", f}
+	}},
+	{"cvc5-1.0/enum", func(f string, to time.Duration) []string {
+		return []string{"cvc5", "--produce-models", "--enum-inst", fmt.Sprintf("--tlimit=%d", int(to.Milliseconds())), f}
+	}},
 }
 
 func portfolioWith(solvers []solverSpec, query string, dir string, name string, timeout time.Duration, both bool, allowSecond bool) (SolveResult, []SolveResult) {
@@ -497,6 +512,9 @@ loop:
 				w := time.Duration(rr.Time*3*float64(time.Second)) + 5*time.Second
 				grace = time.After(w)
 			} else {
+				if r.Status == first.Status && strings.SplitN(r.Solver, "/", 2)[0] == strings.SplitN(first.Solver, "/", 2)[0] {
+					continue // same solver binary with another strategy: not an independent confirmation
+				}
 				if r.Status != first.Status {
 					return SolveResult{Status: "error", Solver: first.Solver + "+" + r.Solver,
 						Output: "solver disagreement: " + first.Status + " vs " + r.Status}, all
